@@ -281,7 +281,7 @@ func (r *propReport) add(e *Engine, g *Gen, key string, res []*Result) {
 	}
 	order := []string{}
 	m := map[string]*agg{}
-	rank := map[string]int{"proved": 0, "cover-ok": 0, "cover-unknown": 1, "noanswer": 2, "refuted": 3, "cover-fail": 3}
+	rank := map[string]int{"proved": 0, "cover-ok": 0, "cover-skipped": 0, "cover-unknown": 1, "noanswer": 2, "refuted": 3, "cover-fail": 3, "engine-error": 4}
 	for _, x := range res {
 		if r.verbose && x.Status != "proved" && !strings.HasPrefix(x.Status, "cover") {
 			fmt.Printf("    site: %s %s %s %dms %s\n", x.Obl.Name, x.Status, x.Solver, x.Ms, x.Obl.Pos)
@@ -309,7 +309,7 @@ func (r *propReport) add(e *Engine, g *Gen, key string, res []*Result) {
 		if strings.Contains(name, "#vacuity") {
 			if a.status == "cover-fail" {
 				r.fail(e, g, name, a.worst, "vacuous: precondition or exit unreachable")
-			} else if a.status == "cover-unknown" {
+			} else if a.status == "cover-unknown" || a.status == "engine-error" {
 				r.undecided = append(r.undecided, fmt.Sprintf("obligation=%s reason=vacuity-check-inconclusive", name))
 			}
 			continue
